@@ -323,7 +323,7 @@ func checkC13(c *Ctx) {
 					}
 				case *ast.CallExpr:
 					for _, a := range x.Args {
-						if strings.HasSuffix(exprString(a), ".Elts") && exprString(x.Fun) != "append" {
+						if strings.HasSuffix(exprString(a), ".Elts") && exprString(x.Fun) != "append" && exprString(x.Fun) != "len" {
 							inspects = true
 						}
 					}
@@ -372,6 +372,196 @@ func checkC13(c *Ctx) {
 				return true
 			})
 		}
+	}
+
+	// a handler that inspects the collected fields must not share its phase
+	// with any other handler that contributes fields: within one phase the
+	// order is the map order of the schema object, so the inspector would see
+	// the other's fields or not depending on key order
+	inspectors := map[string]bool{}
+	for _, fn := range fns {
+		if f := c.fnOpt(jsP, fn); f != nil && R[fn]["obj"] {
+			ast.Inspect(f.Body, func(n ast.Node) bool {
+				switch x := n.(type) {
+				case *ast.RangeStmt:
+					if strings.HasSuffix(exprString(x.X), ".Elts") {
+						inspectors[fn] = true
+					}
+				case *ast.CallExpr:
+					for _, a := range x.Args {
+						if strings.HasSuffix(exprString(a), ".Elts") && exprString(x.Fun) != "append" && exprString(x.Fun) != "len" {
+							inspectors[fn] = true
+						}
+					}
+				}
+				return true
+			})
+		}
+	}
+	nIns := 0
+	for _, ins := range fns {
+		if !inspectors[ins] {
+			continue
+		}
+		for _, w := range fns {
+			if w == ins || !W[w]["obj"] {
+				continue
+			}
+			nIns++
+			okp := true
+			det := ""
+			for _, ea := range byFn[w] {
+				for _, eb := range byFn[ins] {
+					if ea.phase == eb.phase {
+						okp = false
+						det = fmt.Sprintf("%q and %q are both processed in phase %d", ea.key, eb.key, ea.phase)
+					}
+				}
+			}
+			c.check("phases.object-inspector-alone-in-phase", w+"~"+ins, byFn[ins][0].pos, okp,
+				ins+" inspects the fields collected so far in the shared object literal and "+w+" adds fields to it: they must not run in the same phase, or the translation depends on the order of the keys in the schema object (e.g. whether a required name is exempted from additionalProperties); "+det)
+		}
+	}
+	if nIns < 8 {
+		c.check("phases.object-inspector-alone-in-phase", "instances", 0, false, fmt.Sprintf("expected at least 8 inspector/contributor pairs, found %d (anchor moved?)", nIns))
+	}
+	// required adds `name!: _` for names not declared by properties; those are
+	// additional properties and must stay subject to additionalProperties
+	{
+		okp := len(byFn["constraintAdditionalProperties"]) > 0 && len(byFn["constraintRequired"]) > 0
+		for _, ea := range byFn["constraintAdditionalProperties"] {
+			for _, eb := range byFn["constraintRequired"] {
+				if ea.phase >= eb.phase {
+					okp = false
+				}
+			}
+		}
+		c.check("phases.object-fields-before-inspection", "constraintAdditionalProperties->constraintRequired(adds)", 0, okp,
+			"additionalProperties excludes every field already in the object literal from its pattern; the fields that `required` adds for undeclared names must be added afterwards (additionalProperties strictly before required), or a required undeclared name escapes the additionalProperties schema")
+	}
+
+	// ---- combinators: the count handed to matchN agrees with the list handed to it
+	for _, fn := range []string{"constraintAllOf", "constraintAnyOf", "constraintOneOf"} {
+		f := c.fnOpt(jsP, fn)
+		if f == nil {
+			continue
+		}
+		k := 0
+		ast.Inspect(f.Body, func(n ast.Node) bool {
+			call, ok := n.(*ast.CallExpr)
+			if !ok || calleeName(f.Info(), call) != jsP+".matchN" || len(call.Args) != 2 {
+				return true
+			}
+			// the slice spread into the list argument
+			listVar := ""
+			if lc, ok := ast.Unparen(call.Args[1]).(*ast.CallExpr); ok && exprString(lc.Fun) == "ast.NewList" && len(lc.Args) == 1 && lc.Ellipsis.IsValid() {
+				listVar = exprString(lc.Args[0])
+			}
+			// every len(X) inside the count argument must be len(listVar)
+			okc := true
+			lens := 0
+			ast.Inspect(call.Args[0], func(m ast.Node) bool {
+				if lc, ok := m.(*ast.CallExpr); ok && exprString(lc.Fun) == "len" && len(lc.Args) == 1 {
+					lens++
+					if exprString(lc.Args[0]) != listVar || listVar == "" {
+						okc = false
+					}
+				}
+				return true
+			})
+			if lens == 0 {
+				return true // a constant count (oneOf: 1, anyOf: >=1)
+			}
+			k++
+			c.check("combinators.count-matches-list", fmt.Sprintf("%s#matchN%d", fn, k), call.Pos(), okc,
+				"matchN(n, list): a count computed with len(...) must be the length of the very slice that becomes the list ("+listVar+"); members dropped from the list (sub-schemas without constraints) must not be counted, or no instance can ever match")
+			return true
+		})
+	}
+	c.expect("combinators.count-matches-list", 1)
+
+	// ---- generator: a struct that has properties, required names or pattern
+	// properties must generate them — never the empty (accept-all) schema
+	{
+		f := c.fn(jsP, "(*generator).makeStructItem")
+		cf := newCaseFn(c, f)
+		start := -1
+		for _, n := range cf.g.Nodes {
+			if as, ok := n.N.(*ast.AssignStmt); ok && len(as.Lhs) == 1 && exprString(as.Lhs[0]) == "hasObjectConstraints" {
+				start = n.ID
+			}
+		}
+		pr, rq, pp := "0 == len(props.properties)", "0 == len(props.required)", "0 == len(props.patternProperties)"
+		ap := "?props.additionalProperties.Value() == nil"
+		noAllOf := "0 < len(allOf.elems)"
+		for k := range cf.atoms() {
+			if strings.HasPrefix(k, "0 < len(") && strings.HasSuffix(k, ".elems)") {
+				noAllOf = k
+			}
+		}
+		var rows []caseRow
+		for _, r := range []struct {
+			name       string
+			p, q, t, a bool // empty?
+			want       string
+		}{
+			{"properties+required+patterns", false, false, false, true, "&props"},
+			{"properties-only", false, true, true, true, "&props"},
+			{"required-only", true, false, true, true, "&props"},
+			{"patterns-only", true, true, false, true, "&props"},
+			{"properties+required", false, false, true, true, "&props"},
+		} {
+			rows = append(rows, caseRow{name: r.name, start: start,
+				truth: map[string]bool{pr: r.p, rq: r.q, pp: r.t, ap: r.a, noAllOf: false}, want: []string{r.want}})
+		}
+		if start < 0 {
+			c.check("generator.object-constraints-emitted", f.Name, f.Decl.Pos(), false, "anchor: hasObjectConstraints is no longer computed in makeStructItem")
+		} else {
+			cf.checkTable("generator.object-constraints-emitted", rows,
+				"makeStructItem must return the collected properties/required/patternProperties whenever any of them is non-empty (the accept-all schema only for a struct without object constraints)")
+		}
+	}
+
+	// ---- the generator's keyword interaction table is symmetric
+	{
+		okSym, found := false, false
+		for _, file := range c.pkg(jsP).Syntax {
+			ast.Inspect(file, func(n ast.Node) bool {
+				vs, ok := n.(*ast.ValueSpec)
+				if !ok || len(vs.Names) != 1 || vs.Names[0].Name != "keywordInteractions" || len(vs.Values) != 1 {
+					return true
+				}
+				found = true
+				// every assignment m[k] = <group> inside the initializer must store the whole ranged group
+				ast.Inspect(vs.Values[0], func(m ast.Node) bool {
+					outer, ok := m.(*ast.RangeStmt)
+					if !ok || exprString(outer.X) != "keywordGroups" || outer.Value == nil {
+						return true
+					}
+					group := exprString(outer.Value)
+					nAssign := 0
+					allWhole := true
+					ast.Inspect(outer.Body, func(q ast.Node) bool {
+						as, ok := q.(*ast.AssignStmt)
+						if !ok || len(as.Lhs) != 1 || len(as.Rhs) != 1 {
+							return true
+						}
+						if ix, ok := as.Lhs[0].(*ast.IndexExpr); ok && exprString(ix.X) == "m" {
+							nAssign++
+							if exprString(as.Rhs[0]) != group {
+								allWhole = false
+							}
+						}
+						return true
+					})
+					okSym = nAssign > 0 && allWhole
+					return false
+				})
+				return false
+			})
+		}
+		c.check("generator.keyword-interactions-symmetric", jsP+".keywordInteractions", 0, found && okSym,
+			"keywordInteractions must map every keyword of a group to the whole group: the lookup in itemAllOf.generate is directional (is the new member's keyword in conflict with one already merged?), so a one-sided table lets `prefixItems` be merged next to an earlier `items` and changes which instances the generated schema accepts")
 	}
 
 	// ---- (c) operator tables of the bound keywords (decoder)
@@ -526,6 +716,87 @@ func checkC13(c *Ctx) {
 					fmt.Sprintf("in dialects with boolean exclusive bounds a strict bound must be spelled %q plus %q: true; found {%s}", o.base, o.flag, got))
 			}
 		}
+	}
+
+	// ---- (c'') the type-name table of the "type" keyword
+	{
+		f := c.fn(jsP, "constraintType")
+		want := map[string][2]string{
+			"null": {"cue.NullKind", "nullType"}, "boolean": {"cue.BoolKind", "boolType"}, "string": {"cue.StringKind", "stringType"},
+			"number": {"cue.NumberKind", "numType"}, "integer": {"cue.IntKind", "numType"}, "array": {"cue.ListKind", "arrayType"}, "object": {"cue.StructKind", "objectType"},
+		}
+		seen := map[string]bool{}
+		defaultErrs := false
+		ast.Inspect(f.Body, func(n ast.Node) bool {
+			cc, ok := n.(*ast.CaseClause)
+			if !ok {
+				return true
+			}
+			if cc.List == nil {
+				for _, st := range cc.Body {
+					ast.Inspect(st, func(m ast.Node) bool {
+						if call, ok := m.(*ast.CallExpr); ok && strings.HasSuffix(exprString(call.Fun), ".errf") {
+							if len(call.Args) > 1 {
+								if v, ok := constString(f.Info(), call.Args[1]); ok && strings.Contains(v, "unknown type") {
+									defaultErrs = true
+								}
+							}
+						}
+						return true
+					})
+				}
+				return true
+			}
+			for _, e := range cc.List {
+				name, ok := constString(f.Info(), e)
+				w, known := want[name]
+				if !ok || !known {
+					continue
+				}
+				seen[name] = true
+				kind, core := "", ""
+				for _, st := range cc.Body {
+					ast.Inspect(st, func(m ast.Node) bool {
+						switch x := m.(type) {
+						case *ast.AssignStmt:
+							if x.Tok == token.OR_ASSIGN && len(x.Rhs) == 1 {
+								kind = exprString(x.Rhs[0])
+							}
+						case *ast.CallExpr:
+							if strings.HasSuffix(exprString(x.Fun), ".setTypeUsed") && len(x.Args) == 2 {
+								core = exprString(x.Args[1])
+							}
+						}
+						return true
+					})
+				}
+				okT := kind == w[0] && core == w[1]
+				if name == "integer" {
+					// integer additionally narrows the number to int
+					hasInt := false
+					for _, st := range cc.Body {
+						ast.Inspect(st, func(m ast.Node) bool {
+							if call, ok := m.(*ast.CallExpr); ok && exprString(call.Fun) == "ast.NewIdent" && len(call.Args) == 1 {
+								if v, _ := constString(f.Info(), call.Args[0]); v == "int" {
+									hasInt = true
+								}
+							}
+							return true
+						})
+					}
+					okT = okT && hasInt
+				}
+				c.check("types.name-table", "type/"+name, cc.Pos(), okT,
+					fmt.Sprintf("\"type\": %q must allow %s and mark the %s constraints as used (integer additionally adds `int`); found %s / %s", name, w[0], w[1], kind, core))
+			}
+			return true
+		})
+		for name := range want {
+			if !seen[name] {
+				c.check("types.name-table", "type/"+name, f.Decl.Pos(), false, "no case for the JSON Schema type "+name)
+			}
+		}
+		c.check("types.name-table", "type/<unknown>", f.Decl.Pos(), defaultErrs, "an unknown type name must be reported (s.errf \"unknown type\"), not ignored")
 	}
 
 	// ---- (d) dispatcher: a handler runs only in its own phase, for a version it is defined for
